@@ -129,7 +129,8 @@ impl TraceReader {
                 "open" => {
                     let flags = t[4];
                     let kind = if flags.contains('X') { "createx" } else if flags.contains('A') { "opena" } else { "create" };
-                    let p = self.canon_path(t[3], flags.contains('X'));
+                    let p = if tag == "F" && flags.contains('X') && t[3].starts_with("staging/") { format!("staging/#{}", self.next_staging) }
+                            else { self.canon_path(t[3], flags.contains('X')) };
                     format!("{kind} {p}")
                 }
                 "write" => {
